@@ -573,6 +573,47 @@ def r5(ctx, cfg):
     ok = len(pops) == 1 and cf.dominates(pops[0][0], bid) and any(c[0] == "variant_in" and c[2] == ("Some",) and peel(c[1])[0] == "call" and peel(c[1])[1].endswith("VecDeque::front")
                                                                     for e, c in q.dominating_conditions(P, f, pops[0][0]))
     ctx.ob(R, key, "pays-the-front-entry", ok, "the paid entry is not the checked front entry", fn=f, sample="front() checked, pop_front() paid")
+    # the payout loop only stops when the queue is empty or its front entry is not due yet (or on an error): every entry
+    # that is due at this block update is processed by it.  Exits of the cycle through pop_front(), and the in-loop
+    # conditions under which each is taken:
+    if len(pops) == 1:
+        pb = pops[0][0]
+        loop = {n for n in cf.nodes() if pb in cf.reachable_from(n) and (n == pb or n in cf.reachable_from(pb))}
+        def allowed_edge(e):
+            cs = q.edge_conditions(P, f, e)
+            empty = any(c[0] == "variant_in" and "None" in c[2] and contains(c[1], lambda y: y[0] == "call" and y[1].endswith("VecDeque::front")) for c in cs) or \
+                any(c[0] == "variant_not_in" and c[2] == ("Some",) and contains(c[1], lambda y: y[0] == "call" and y[1].endswith("VecDeque::front")) for c in cs)
+            not_due = any(c[0] == "bool" and c[1][0] == "lt" and c[1][2] is True and is_block_time(c[1][1][0]) and is_front_payout_at(c[1][1][1]) for c in cs)
+            return empty or not_due
+        allowed = [n for n in cf.nodes() if isinstance(n, tuple) and n[0] == "e" and allowed_edge(n)]
+        heads = [b0 for b0, t0 in f.calls() if t0["callee"]["key"].endswith("VecDeque::front") and b0 in loop]
+        bad_exits = []
+        n_exits = len([e for e in allowed if e in loop or e[1] in loop])
+        seen2 = set()
+        stack2 = list(heads)
+        while stack2:
+            n = stack2.pop()
+            if n in seen2:
+                continue
+            seen2.add(n)
+            for s2 in cf.succ.get(n, []):
+                if s2 in allowed:
+                    continue
+                if s2 in loop:
+                    stack2.append(s2)
+                elif not (not isinstance(s2, tuple) and cf.is_unreachable_block(s2)) and not q.only_errors_from(P, f, s2):
+                    # left the loop through something else than "queue empty" / "front not due"
+                    if isinstance(s2, tuple):
+                        stack2.append(s2)      # an edge node leaving the loop: look at where it goes
+                        loop_exit = s2
+                    bad_exits.append(repr(n)[:40] + " -> " + repr(s2)[:40])
+        # edge nodes that leave the loop were pushed above only to report them once; drop duplicates
+        bad_exits = sorted(set(bad_exits))
+        if not heads:
+            bad_exits.append("no front() inside the loop")
+        ctx.ob(R, key, "every-due-entry-is-processed", n_exits >= 1 and not bad_exits,
+               "the payout loop can stop although the front entry is due (exit taken under %s)" % bad_exits[:2], fn=f,
+               sample="%d loop exits: queue empty | front not due" % n_exits)
     # the remaining queue is saved on every normal return
     sv = store_calls(P, f, QUEUE, ("save",))
     errs = error_blocks(P, f)
